@@ -257,6 +257,27 @@ NEG = [
 ]
 
 
+# coroutine clauses on ORDINARY functions, in every position relative to the ordinary clauses: always rejected,
+# with one of the documented texts
+ORD_RX = (r"CO_RETURN when return type is not a coroutine|CO_RETURN and RETURN cannot be combined|"
+          r"CO_YIELD when return type is not a coroutine|Do not use CO_THROW from a normal function, use THROW")
+
+
+def ordinary_negatives():
+    out = []
+    co = {"int(int)": [".CO_RETURN(2)", ".LR_CO_RETURN(2)", ".CO_YIELD(2)", ".CO_THROW(2)", ".LR_CO_THROW(2)"],
+          "void(int)": [".CO_RETURN()", ".CO_YIELD(2)", ".CO_THROW(2)"]}
+    base = {"int(int)": [[".RETURN(1)"], [".THROW(1)"], [".WITH(_1 == 1)", ".RETURN(1)"], [".SIDE_EFFECT(glob = 1)", ".RETURN(1)"],
+                         [".TIMES(2)", ".RETURN(1)"], [".LR_RETURN(glob)"], []],
+            "void(int)": [[], [".SIDE_EFFECT(glob = 1)"], [".THROW(1)"], [".TIMES(2)"]]}
+    for sig, cos in co.items():
+        for b in base[sig]:
+            for c in cos:
+                for pos in range(len(b) + 1):
+                    out.append(("".join(b[:pos]) + c + "".join(b[pos:]), ORD_RX, sig))
+    return out
+
+
 def c20e(ctx):
     from witness import c19gen
     gen = facts.gen_dir()
@@ -288,6 +309,11 @@ def c20e(ctx):
         lines.append("namespace c%d { struct M { MAKE_MOCK1(f, lazy_int(int)); }; inline void t() { M m; "
                      "trompeloeil::sequence s; REQUIRE_CALL(m, f(1))%s; } }" % (ln, c))
         cases[ln] = (c, rx)
+    for c, rx, sig in ordinary_negatives():
+        ln = len(lines) + 1
+        lines.append("namespace c%d { struct M { MAKE_MOCK1(f, %s); }; inline void t() { M m; "
+                     "trompeloeil::sequence s; REQUIRE_CALL(m, f(1))%s; } }" % (ln, sig, c))
+        cases[ln] = ("[" + sig + "] " + c, rx)
     lines.append("}\nint main() {}\n")
     progs.append(("c20_neg.cpp", lines, cases))
     jobs, meta = [], []
